@@ -30,7 +30,7 @@ def pick_len(rng, maxlen):
 
 def plan(tier):
     return {"shards": 8 if tier == "quick" else 16, "budget_s": 30 if tier == "quick" else 600,
-            "required_counters": ["ragged", "mesh_last_row_alone", "surface_rows", "solo_evals"]}
+            "required_counters": ["ragged", "mesh_last_row_alone", "surface_rows", "solo_evals", "special_batches"]}
 
 
 def interior_point(spec):
@@ -170,9 +170,63 @@ def solo(case, l, m, k=None, pos=None):
         return np.asarray(getattr(magpy, "get" + F)(s, np.array(pos), squeeze=False))[0, 0, 0]
 
 
+SPECIAL_CLASSES = ["Cuboid", "Cylinder", "Sphere", "Circle", "Polyline", "Triangle", "Tetrahedron", "TriangularMesh", "Dipole"]
+
+
+def gen_special(rng):
+    """one source in the identity pose, observers EXACTLY on special sets of its geometry (hull / face-plane /
+    edge extensions, axis, symmetry planes - where the special functions get arguments like p = 0, k = 1), in
+    batches on both sides of the scalar/vector switches.  (CylinderSegment is left to C15: it raises there.)"""
+    from vfw.oracles import geometry as G
+    from vfw.props.c01 import gen_special_exact
+
+    while True:
+        c = gen_special_exact(rng)
+        if c is not None and c["source"]["cls"] in SPECIAL_CLASSES:
+            break
+    s = c["source"]
+    if "polarization" in s and rng.random() < 0.5:   # axis-aligned polarization: separate branches (cylinder)
+        p = [0.0, 0.0, 0.0]
+        p[int(rng.integers(0, 3))] = float(rng.choice([-1, 1]) * (0.3 + rng.random()))
+        s["polarization"] = p
+    P = np.array(c["observers"], float)
+    n = int(rng.choice([3, 9, 10, 11, 15, 16, 40]))
+    P = P[rng.integers(0, len(P), size=n)]
+    return {"mode": "special", "sources": [s], "observers": P.tolist(), "field": str(rng.choice(list("BH"))),
+            "kinds": ["special"] * n}
+
+
+def check_special(ctx, case):
+    """every row of the batch against the same observer evaluated alone"""
+    import magpylib as magpy
+
+    s, F = case["sources"][0], case["field"]
+    P = np.array(case["observers"], float)
+    try:
+        with quiet(), np.errstate(all="ignore"):
+            got = np.asarray(getattr(magpy, "get" + F)(objs.build(s), P, squeeze=False)).reshape(-1, 3)
+            single = np.array([np.asarray(getattr(magpy, "get" + F)(objs.build(s), p[None], squeeze=False)).reshape(3) for p in P])
+    except Exception as e:
+        ctx.count("special_raised:" + type(e).__name__)   # raising on special sets is decided by C15
+        return
+    ctx.count("special_batches")
+    ctx.count("special_rows", len(P))
+    ctx.count("mode:special")
+    ctx.count("batch:" + str(len(P)) if len(P) in NOBS else "batch:other")
+    ctx.evaluated(case, nontrivial=len(P) >= 9, n=len(P))
+    ok, w = tol.close_a(got, single, tol.floor_abs(s, F))
+    if not ok:
+        d = np.abs(got - single).max(axis=1)
+        row = int(np.argmax(np.nan_to_num(d, nan=np.inf)))
+        ctx.violation({"kind": "batch!=single-observer", "cls": s["cls"], "field": F, "obs": "special"}, case,
+                      {"row": row, "ratio": w, "batch": got[row], "single": single[row], "observer": P[row]})
+
+
 def check_case(ctx, case):
     import magpylib as magpy
 
+    if case.get("mode") == "special":
+        return check_special(ctx, case)
     F = case["field"]
     specs = case["sources"]
     uniq = {}
@@ -271,7 +325,7 @@ def check_case(ctx, case):
 
 def run_shard(ctx):
     while not ctx.expired():
-        check_case(ctx, gen_case(ctx.rng))
+        check_case(ctx, gen_special(ctx.rng) if ctx.rng.random() < 0.15 else gen_case(ctx.rng))
 
 
 def replay(ctx, case):
